@@ -4,16 +4,25 @@ import os
 
 VERIF = os.path.dirname(os.path.dirname(os.path.abspath(__file__)))
 
-CHECKS = {
-    'C18': dict(
-        text='Lean 4 theorems over a model of stone/backend.py (brace escaping vs str.format subset, emit/indent/block '
-             'semantics, POSIX path containment as an iff, manifest) tied to the code by a translator for the '
-             'replace-chain and by differential runs of the real Backend against the compiled model.',
-        note='Trusted: Lean kernel, translator, correspondence generators, str.format / textwrap / os.path as external '
-             'calls (re-implemented in the model and compared on every run). File-system effects are observed, not proved.',
-        technique='Lean 4 proof + translator + differential correspondence',
-        design='5 C18'),
-}
+import importlib
+import sys
+sys.path.insert(0, VERIF)
+sys.path.insert(0, os.environ.get('STONE_REPO', '/repo'))
+
+
+def load_checks():
+    """Each harness/props/Cxx.py that is ready to be claimed defines MANIFEST = dict(text, note, technique, design)."""
+    out = {}
+    d = os.path.join(VERIF, 'harness', 'props')
+    for fn in sorted(os.listdir(d)):
+        if fn.startswith('C') and fn.endswith('.py'):
+            mod = importlib.import_module('harness.props.' + fn[:-3])
+            if getattr(mod, 'MANIFEST', None):
+                out[fn[:-3]] = mod.MANIFEST
+    return out
+
+
+CHECKS = load_checks()
 
 NOT_YET = 'check not built yet in this round (model and theorems pending); not claimed'
 
